@@ -11,7 +11,7 @@ from .. import harness
 PROP = "C19"
 MODNAME = __name__
 
-KEYS = ["a", "b", "A", "title", "x-y", ""]
+KEYS = ["a", "b", "A", "title", "x-y", "", "id", "Id", "entrytype", "ıd"]
 KEYS_SMALL = ["a", "b", "A"]
 
 # ---------------------------------------------------------------------------------------------
